@@ -11,6 +11,7 @@ package dnsutils
 //@ spec func frameLen(c io.Reader, p int) int = rdbyte(c, p) * 256 + rdbyte(c, p + 1)
 
 //@ func ReadRawMsgFromTCP [C16, C17, C01]
+//@   log ReadRawMsgFromTCP
 //@   modifies ghost(rdpos, c)
 //@   ensures (result_1 == nil) == (result_0 != nil)
 //@   ensures result_1 == nil ==> fresh(result_0) && frameLen(c, old(ghost(rdpos, c))) > 12 && len(*result_0) == frameLen(c, old(ghost(rdpos, c)))
